@@ -1392,8 +1392,9 @@ func parseBasicLiteral(typ ast.LiteralType, s string) (constant, error) {
 			return nil, fmt.Errorf("constant too large: %s", s)
 		}
 		if n.MinPrec() < 53 {
-			f, _ := n.Float64()
-			return float64Const(f), nil
+			if f, acc := n.Float64(); acc == big.Exact {
+				return float64Const(f), nil
+			}
 		}
 		const maxExp = 4 << 10
 		if e := n.MantExp(nil); -maxExp < e && e < maxExp {
